@@ -333,7 +333,7 @@ pub fn run(ctx: &Ctx, rep: &mut Report) {
         ctx,
         "generated:structured-long",
         &js,
-        ctx.n(1200, 120_000),
+        ctx.n(1200, 30_000),
         |j| {
             let m = &cat().models[j.entry];
             long_strategy(m, j.ty, &opt_model_for(m))
